@@ -39,6 +39,8 @@ type World struct {
 	logs     []string
 	hashCount int
 	unixCache map[int]value
+	place     map[int]byte
+	placeBack map[byte]value
 }
 
 func newWorld(i *interpreter) *World {
